@@ -1,6 +1,7 @@
 package historyprunner
 
 import (
+	"bytes"
 	"context"
 	"encoding/binary"
 	"errors"
@@ -122,6 +123,25 @@ func (m *Migrator) Migrate(
 		m.floorPinned = true
 	}
 	oldestBlockKept := m.oldestBlockKept
+
+	// A resume blob can be stale: the previous start may have completed — its last commit wipes
+	// the scratch namespace — and died before the runner recorded the migration as applied.
+	// Staged progress only means something while the staged copies exist; without them the
+	// history is staged again from the cutoff (staging a block twice is harmless). The decision
+	// is recorded by a marker inside the scratch namespace, because the stale blob survives
+	// further interrupted starts while the scratch space fills up again.
+	if m.restorerProgress == 0 && m.stagerProgress > oldestBlockKept {
+		restage, err := mustRestage(database)
+		if err != nil {
+			return nil, fmt.Errorf("checking scratch space: %w", err)
+		}
+		if restage {
+			if err := database.Put(restageMarkerKey, nil); err != nil {
+				return nil, fmt.Errorf("writing restage marker: %w", err)
+			}
+			m.stagerProgress = oldestBlockKept
+		}
+	}
 
 	start := time.Now()
 	logger.Info("Starting history pruning migration",
@@ -420,6 +440,22 @@ func (m *Migrator) retentionFloorWithMinAge(
 		return 0, err
 	}
 	return min(standardFloor, minAgeFloor), nil
+}
+
+// restageMarkerKey lives in the scratch namespace below every staged key (their second byte
+// is a history bucket tag), so it is the first key of the namespace and goes away with the
+// final scratch wipe.
+var restageMarkerKey = []byte{migrationScratchTag, 0}
+
+// mustRestage reports whether staged progress recorded in a resume blob cannot be trusted:
+// the scratch namespace is empty, or an earlier start already decided to stage from the cutoff.
+func mustRestage(database db.KeyValueStore) (bool, error) {
+	it, err := database.NewIterator([]byte{migrationScratchTag}, true)
+	if err != nil {
+		return false, err
+	}
+	restage := !it.First() || bytes.Equal(it.Key(), restageMarkerKey)
+	return restage, it.Close()
 }
 
 func wipeScratchSpace(batch db.Batch) error {
